@@ -47,6 +47,7 @@ var (
 		{`e2`, e2},
 		{`7`, 7},
 		{`[]int{1}`, []int{1}}, // a value zap.Any turns into an array field
+		{`zap.String("error","typed")`, typedErrKeyAtom}, // a typed field that happens to use the key the first bare error gets
 		{`errObj{}`, errObj{}}, // an error that is also an ObjectMarshaler: bare it is an error, as a pair's value zap.Any picks the object form
 	}
 )
